@@ -2,6 +2,7 @@ package ast
 
 import (
 	"fmt"
+	"reflect"
 
 	"github.com/google/go-cmp/cmp"
 	"github.com/grafana/cog/internal/tools"
@@ -769,6 +770,14 @@ func (t EnumType) MemberForValue(value any) (EnumValue, bool) {
 	}
 
 	equal := func(a, b any) bool {
+		// values that can not be compared (lists, objects) are no enum members
+		if a != nil && !reflect.TypeOf(a).Comparable() {
+			return false
+		}
+		if b != nil && !reflect.TypeOf(b).Comparable() {
+			return false
+		}
+
 		return a == b
 	}
 	if t.Values[0].Type.Scalar.ScalarKind != KindString {
